@@ -27,6 +27,7 @@ import (
 	"example.com/scion-time/core/server"
 	"example.com/scion-time/core/timebase"
 	"example.com/scion-time/net/ntske"
+	"example.com/scion-time/net/scion"
 	"example.com/scion-time/net/udp"
 
 	"verifharness/lib"
@@ -568,4 +569,190 @@ func hopPath(currHF, seg0, seg1, seg2 int) []byte {
 		b = append(b, 0, 63, 0, byte(i), 0, byte(i+1), 1, 2, 3, 4, 5, 6) // flags, exp time, ingress, egress, MAC
 	}
 	return b
+}
+
+// ---- cli.kestallquic: an NTS-KE server over QUIC that stalls after the handshake ----
+
+// quicKEPeer is a scripted key-exchange peer behind the project's own scion.ListenQUIC.
+type quicKEPeer struct {
+	ln      *scion.QUICListener
+	port    int
+	mu      sync.Mutex
+	stall   int // 0 answer properly, 1 nothing, 2 half a record, 3 a byte per second of a record that never ends
+	ntpPort int
+	nts     *ntsPeer
+	release chan struct{}
+}
+
+func newQUICKEPeer(e *netEnv, nts *ntsPeer, ntpPort int, release chan struct{}) *quicKEPeer {
+	p := &quicKEPeer{nts: nts, ntpPort: ntpPort, release: release}
+	host := &net.UDPAddr{IP: e.peerIP, Port: 0}
+	ln, err := scion.ListenQUIC(context.Background(), udp.UDPAddr{IA: addr.IA(localIA), Host: host}, e.tlsSrv.Clone(), nil)
+	if err != nil {
+		panic(err)
+	}
+	p.ln = ln
+	p.port = ln.Addr().(udp.UDPAddr).Host.Port
+	go func() {
+		for {
+			conn, err := ln.Accept(context.Background())
+			if err != nil {
+				return
+			}
+			go func() {
+				s, err := conn.AcceptStream(context.Background())
+				if err != nil {
+					return
+				}
+				var data ntske.Data
+				if err := ntske.ReadData(context.Background(), discardLog, bufio.NewReader(s), &data); err != nil {
+					return
+				}
+				if err := ntske.ExportKeys(conn.ConnectionState().TLS, &data); err != nil {
+					return
+				}
+				nts.mu.Lock()
+				nts.c2s, nts.s2c = data.C2sKey, data.S2cKey
+				nts.mu.Unlock()
+				p.mu.Lock()
+				stall := p.stall
+				p.mu.Unlock()
+				switch stall {
+				case 0:
+					var msg ntske.ExchangeMsg
+					msg.AddRecord(ntske.NextProto{NextProto: ntske.NTPv4})
+					msg.AddRecord(ntske.Algorithm{Algo: []uint16{ntske.AES_SIV_CMAC_256}})
+					msg.AddRecord(ntske.Server{Addr: []byte(e.peerIP.String())})
+					msg.AddRecord(ntske.Port{Port: uint16(p.ntpPort)})
+					for i := 0; i < 8; i++ {
+						msg.AddRecord(ntske.Cookie{Cookie: make([]byte, 124)})
+					}
+					msg.AddRecord(ntske.End{})
+					if b, err := msg.Pack(); err == nil {
+						s.Write(b.Bytes())
+						s.Close()
+					}
+					return
+				case 2:
+					s.Write([]byte{0x80, 1, 0})
+				case 3:
+					s.Write([]byte{0, 9, 0xff, 0xff}) // a non-critical record of 65535 bytes that never gets there
+					for i := 0; i < 120; i++ {
+						s.Write([]byte{0})
+						select {
+						case <-release:
+							return
+						case <-time.After(time.Second):
+						}
+					}
+				}
+				select {
+				case <-release:
+				case <-time.After(120 * time.Second):
+				}
+				conn.CloseWithError(0, "")
+			}()
+		}
+	}()
+	return p
+}
+
+// args: stall mode (1 nothing, 2 half a record, 3 a trickle, 4 a handshake that never completes:
+// only the client's first datagram reaches a QUIC listener and nothing comes back).
+func runClientKEStallQUIC(e *netEnv, a []val) string {
+	nts := newNTSPeer(e) // for the keys and the NTS replies only
+	defer nts.ln.Close()
+	defer nts.ntp.conn.Close()
+	release := make(chan struct{})
+	defer close(release)
+	sconn, err := net.ListenUDP("udp4", &net.UDPAddr{IP: e.peerIP})
+	if err != nil {
+		panic(err)
+	}
+	defer sconn.Close()
+	port := sconn.LocalAddr().(*net.UDPAddr).Port
+	nts.port = port
+	kp := newQUICKEPeer(e, nts, port, release)
+	defer kp.ln.Close()
+	mode := int(a[0].z)
+	kp.stall = mode
+	ia := addr.IA(localIA)
+	c := &client.SCIONClient{Log: discardLog}
+	c.Auth.NTSEnabled = true
+	f := &c.Auth.NTSKEFetcher
+	f.Log = discardLog
+	f.TLSConfig = tls.Config{InsecureSkipVerify: true, ServerName: "c08", MinVersion: tls.VersionTLS13}
+	f.QUIC.Enabled = true
+	f.QUIC.LocalAddr = udp.UDPAddr{IA: ia, Host: &net.UDPAddr{IP: e.peerIP}}
+	f.QUIC.RemoteAddr = udp.UDPAddr{IA: ia, Host: &net.UDPAddr{IP: e.peerIP, Port: kp.port}}
+	var rl *relay
+	if mode == 4 {
+		rl = newRelay(e, 1)
+		defer rl.c.Close()
+		f.QUIC.RemoteAddr = udp.UDPAddr{IA: ia, Host: rl.c.LocalAddr().(*net.UDPAddr)}
+	}
+	measure := func(ctx context.Context) error {
+		local := udp.UDPAddr{IA: ia, Host: &net.UDPAddr{IP: e.peerIP}}
+		remote := udp.UDPAddr{IA: ia, Host: &net.UDPAddr{IP: e.peerIP, Port: port}}
+		ps := []snet.Path{spath.Path{Src: ia, Dst: ia, DataplanePath: spath.Empty{}, NextHop: &net.UDPAddr{IP: e.peerIP, Port: port}}}
+		_, _, err := client.MeasureClockOffsetSCION(ctx, discardLog, []*client.SCIONClient{c}, local, remote, ps)
+		return err
+	}
+	bounded := func(limit, margin time.Duration) (error, bool) {
+		res := make(chan error, 1)
+		ctx, cancel := context.WithTimeout(context.Background(), limit)
+		go func() {
+			defer cancel()
+			res <- measure(ctx)
+		}()
+		select {
+		case err := <-res:
+			return err, true
+		case <-time.After(limit + margin):
+			return nil, false
+		}
+	}
+	t0 := time.Now()
+	_, r1 := bounded(500*time.Millisecond, 10*time.Second)
+	// from now on the key-exchange peer answers properly; the client's next exchanges must not be
+	// held up by the stalled one for longer than the margin
+	kp.mu.Lock()
+	kp.stall = 0
+	kp.mu.Unlock()
+	if mode == 4 {
+		time.Sleep(200 * time.Millisecond)
+		f.QUIC.RemoteAddr = udp.UDPAddr{IA: ia, Host: &net.UDPAddr{IP: e.peerIP, Port: kp.port}}
+	}
+	r2 := false
+	for time.Since(t0) < 500*time.Millisecond+10*time.Second && !r2 {
+		done := make(chan struct{})
+		go func() {
+			defer close(done)
+			buf := make([]byte, 65536)
+			sconn.SetReadDeadline(time.Now().Add(callLimit))
+			n, src, err := sconn.ReadFromUDP(buf)
+			if err != nil {
+				return
+			}
+			pl, srcPort, ok := scionPayload(buf[:n])
+			if !ok || len(pl) < 48 {
+				return
+			}
+			h := &scionSpec{dstIA: localIA, srcIA: localIA, dstRaw: []byte(e.peerIP.To4()), srcRaw: []byte(e.peerIP.To4()),
+				udpSrc: uint16(port), udpDst: srcPort}
+			if d, err := buildSCION(h, nts.ntsReply(pl, 0, []int64{124})); err == nil {
+				sconn.WriteToUDP(d, src)
+			}
+		}()
+		err, ret := bounded(2*time.Second, 10*time.Second)
+		waitDone(done, sconn)
+		r2 = ret && err == nil
+		if !ret {
+			break
+		}
+	}
+	if debugOn {
+		note(fmt.Sprintf("cli.kestallquic mode %d: first call returned=%v, later call ok=%v after %.1fs", mode, r1, r2, time.Since(t0).Seconds()))
+	}
+	return lib.V("1", lib.L(lib.Bool(r1), lib.Bool(r2)))
 }
